@@ -37,12 +37,12 @@ def run(tier):
     q = tier == 'quick'
     full = mc.ALL_TAKE + ['EjectCheck']
     if q:
-        design = [('c07nla_q', full), ('c07chic_q', full), ('c07contig_q', full), ('c07tie_q', full)]
-        gens = ['gen4_q', 'genchic_q', 'gentie_q']
+        design = [('c07nla_q', full), ('c07chic_q', full), ('c07contig_q', full), ('c07tie_q', full), ('c07upstream_q', full)]
+        gens = ['gen4_q', 'genchic_q', 'gentie_q', 'genupstream_q']
     else:
         design = [('c07nla_t', full), ('c07nla5_t', full), ('c07chic_t', full), ('c07plain_t', full), ('c07plain5_t', full), ('c07contig_t', full),
-                  ('c07nla_q', full), ('c07chic_q', full), ('c07tie_q', full)]
-        gens = ['gen4_q', 'genchic_q', 'gentie_q', 'gen3_q', 'gen4_t', 'genplain_t', 'genplain5_t']
+                  ('c07nla_q', full), ('c07chic_q', full), ('c07tie_q', full), ('c07upstream_q', full)]
+        gens = ['gen4_q', 'genchic_q', 'gentie_q', 'genupstream_q', 'gen3_q', 'gen4_t', 'genplain_t', 'genplain5_t']
     negative = [('c07nla_pop', C07), ('c07chic_pop', C07), ('c07nla_beyond', C07), ('c07chic_beyond', C07)]
     mc.run_mcs(c, design, negative, workers=4, par=4)
     scn = os.path.join(vlib.scratch(), 'scenarios.json')
